@@ -408,7 +408,10 @@ def catalogue_complete():
 
 
 def run_entry(name, case_seed, rs):
-    return ENTRIES[name](case_seed, rs)
+    # a fresh default accountant per call: the process-wide default would otherwise accumulate every spend of the run
+    # (its total() is linear in the number of recorded spends, so the check would slow down quadratically)
+    with seams.fresh_default_accountant():
+        return ENTRIES[name](case_seed, rs)
 
 
 # ------------------------------------------------------------------ fresh interpreter
@@ -518,7 +521,7 @@ def forest_data(c):
 
 def fit_forest(c, n_jobs, random_state=None):
     X, y, bounds, Xt = forest_data(c)
-    with warnings.catch_warnings():
+    with warnings.catch_warnings(), seams.fresh_default_accountant():
         warnings.simplefilter("ignore")
         m = MD.RandomForestClassifier(c["k"], max_depth=c["depth"], epsilon=c["eps"], bounds=bounds, classes=[0, 1, 2],
                                       n_jobs=n_jobs, shuffle=c["shuffle"],
@@ -611,7 +614,7 @@ def fit_logreg(c, n_jobs):
     X = np.array([[r.uniform(-1, 1) for _ in range(c["d"])] for _ in range(c["n"])])
     y = np.arange(c["n"]) % c["classes"]
     Xt = X[:6] * 0.5
-    with warnings.catch_warnings():
+    with warnings.catch_warnings(), seams.fresh_default_accountant():
         warnings.simplefilter("ignore")
         m = MD.LogisticRegression(epsilon=1.0, data_norm=2.0, n_jobs=n_jobs, fit_intercept=c["intercept"],
                                   max_iter=c["max_iter"], random_state=c["seed"]).fit(X, y)
